@@ -437,6 +437,10 @@ class DatasetProcessor:
                 # store index in the output folder in this case
                 args.fai_file_name = os.path.join(args.output, ref_file_name  + ".fai")
 
+            if os.path.exists(args.fai_file_name) and os.path.getsize(args.fai_file_name) == 0:
+                # an empty index is what an interrupted run leaves behind, pyfaidx would silently load zero sequences
+                os.remove(args.fai_file_name)
+
             low_ext = outer_ext.lower()
             if low_ext in ['.gz', '.gzip', '.bgz']:
                 try:
